@@ -39,6 +39,8 @@ def bounds(tier):
 def configs(tier, seed):
     geoms = ["generic", "coincident"] if tier == "quick" else al.GEOMS
     out = ps.configs(tier, 4, singles=True, bases=False, shapes=shapes(tier), geoms=geoms)
+    if tier == "quick":
+        out += ps.close_configs(4)
     starts3 = [0] if tier == "quick" else [0, 1, 2, 3]
     for st in starts3:
         for perm in itertools.permutations(range(3)):
